@@ -409,7 +409,11 @@ fn threads(nthreads: usize, rounds: usize, ops_per_round: usize, seed: u64, limi
             let mut mine = 0usize;
             let mut high = 0usize;
             let mut tagc = (tid as u8).wrapping_mul(17) | 1;
+            let mut dead = false;
             for round in 0..rounds {
+                // a panic inside the allocator (overflow checks on corrupted counters) must not leave
+                // the other threads waiting at the barrier: this thread keeps attending, without working
+                let worked = if dead { Ok(()) } else { std::panic::catch_unwind(std::panic::AssertUnwindSafe(|| {
                 for _ in 0..ops_per_round {
                     let s = [1usize, 16, 64, 200, 1024, 4000][rng.below(6)];
                     match rng.below(10) {
@@ -454,6 +458,11 @@ fn threads(nthreads: usize, rounds: usize, ops_per_round: usize, seed: u64, limi
                     high = high.max(mine);
                     ops_done.fetch_add(1, Ordering::Relaxed);
                 }
+                })) };
+                if worked.is_err() {
+                    dead = true;
+                    problems.lock().unwrap_or_else(|e| e.into_inner()).push(format!("thread {tid}: panic inside the allocator workload in round {round} (arithmetic overflow on the counters?)"));
+                }
                 // ---- quiescent point
                 let order = arrival.fetch_add(1, Ordering::SeqCst);
                 if order % nthreads == 0 {
@@ -494,11 +503,19 @@ fn threads(nthreads: usize, rounds: usize, ops_per_round: usize, seed: u64, limi
             }
         }));
     }
+    let mut panicked = 0;
     for h in handles {
-        h.join().unwrap();
+        if h.join().is_err() {
+            panicked += 1;
+        }
     }
     let (used, _, _) = peek(&shared);
-    let mut probs = problems.lock().unwrap().clone();
+    let mut probs = problems.lock().map(|g| g.clone()).unwrap_or_else(|e| e.into_inner().clone());
+    if panicked > 0 {
+        // with overflow checks on, corrupted counters show up as arithmetic panics inside alloc.rs
+        probs.push(format!("{panicked} worker thread(s) panicked inside the allocator workload (arithmetic overflow on the counters?)"));
+        return probs;
+    }
     if used != 0 {
         probs.push(format!("after all threads freed everything usage is {used}"));
     }
